@@ -79,6 +79,7 @@ TRANSLATORS = {
     "GenKernel": "gen_kernel",
     "GenRviStep": "gen_rvistep",
     "GenPiEval": "gen_pieval",
+    "GenDeMoor": "gen_demoor",
 }
 
 
